@@ -313,11 +313,103 @@ fn vis(args: &[&str]) -> String {
     out.join(",")
 }
 
+mod app_pool {
+    use bevy::prelude::*;
+    use serde::{Deserialize, Serialize};
+    #[derive(Component, Serialize, Deserialize)]
+    pub struct CA(pub u8);
+    #[derive(Component, Serialize, Deserialize)]
+    pub struct CB(pub u8);
+    #[derive(Component, Serialize, Deserialize)]
+    pub struct CC(pub u8);
+    #[derive(Event, Serialize, Deserialize)]
+    pub struct EA(pub u8);
+    #[derive(Event, Serialize, Deserialize)]
+    pub struct EB(pub u8);
+}
+
+/// `proto_app item,item,...`: a real App (RepliconPlugins, default ProtocolCheck) performing registrations through the
+/// public API. Items: r<i> replicate, p<i>:<prio> replicate_with_priority, b<ij> bundle, ce<i> client event, ct<i> client
+/// trigger, se<i> server event, st<i> server trigger, ie<i> independent event, it<i> independent trigger.
+/// Answer: `<hash> <model items>` where the model items spell the same registrations (incl. the plugin's own) for the Coq model.
+fn proto_app(args: &[&str]) -> String {
+    use app_pool::*;
+    use bevy_replicon::prelude::*;
+    use bevy_replicon::shared::replication::replication_registry::rule_fns::RuleFns;
+    let mut app = App::new();
+    app.add_plugins((MinimalPlugins, RepliconPlugins));
+    let mut model: Vec<String> = Vec::new();
+    let name = |n: &str| hex(n.as_bytes());
+    // registrations of RepliconSharedPlugin under AuthMethod::ProtocolCheck
+    model.push(format!("3:0:0:{}", name(std::any::type_name::<ProtocolHash>())));
+    model.push(format!("5:0:0:{}", name(std::any::type_name::<ProtocolMismatch>())));
+    model.push(format!("7:0:0:{}", name(std::any::type_name::<ProtocolMismatch>())));
+    for item in args.first().copied().unwrap_or("").split(',').filter(|i| !i.is_empty() && *i != "-") {
+        macro_rules! comp {
+            ($i:expr, $f:ident) => {
+                match $i {
+                    "0" => $f!(CA),
+                    "1" => $f!(CB),
+                    _ => $f!(CC),
+                }
+            };
+        }
+        macro_rules! evt {
+            ($i:expr, $f:ident) => {
+                match $i {
+                    "0" => $f!(EA),
+                    _ => $f!(EB),
+                }
+            };
+        }
+        if let Some(i) = item.strip_prefix("ce") {
+            macro_rules! go { ($t:ty) => {{ app.add_client_event::<$t>(Channel::Ordered); model.push(format!("2:0:0:{}", name(std::any::type_name::<$t>()))); }}; }
+            evt!(i, go);
+        } else if let Some(i) = item.strip_prefix("ct") {
+            macro_rules! go { ($t:ty) => {{ app.add_client_trigger::<$t>(Channel::Ordered); model.push(format!("3:0:0:{}", name(std::any::type_name::<$t>()))); }}; }
+            evt!(i, go);
+        } else if let Some(i) = item.strip_prefix("se") {
+            macro_rules! go { ($t:ty) => {{ app.add_server_event::<$t>(Channel::Ordered); model.push(format!("4:0:0:{}", name(std::any::type_name::<$t>()))); }}; }
+            evt!(i, go);
+        } else if let Some(i) = item.strip_prefix("st") {
+            macro_rules! go { ($t:ty) => {{ app.add_server_trigger::<$t>(Channel::Ordered); model.push(format!("5:0:0:{}", name(std::any::type_name::<$t>()))); }}; }
+            evt!(i, go);
+        } else if let Some(i) = item.strip_prefix("ie") {
+            macro_rules! go { ($t:ty) => {{ app.add_server_event::<$t>(Channel::Ordered); app.make_event_independent::<$t>();
+                model.push(format!("4:0:0:{}", name(std::any::type_name::<$t>()))); model.push(format!("6:0:0:{}", name(std::any::type_name::<$t>()))); }}; }
+            evt!(i, go);
+        } else if let Some(i) = item.strip_prefix("it") {
+            macro_rules! go { ($t:ty) => {{ app.add_server_trigger::<$t>(Channel::Ordered); app.make_trigger_independent::<$t>();
+                model.push(format!("5:0:0:{}", name(std::any::type_name::<$t>()))); model.push(format!("7:0:0:{}", name(std::any::type_name::<$t>()))); }}; }
+            evt!(i, go);
+        } else if let Some(i) = item.strip_prefix('r') {
+            macro_rules! go { ($t:ty) => {{ app.replicate::<$t>(); model.push(format!("0:1:0:{}", name(std::any::type_name::<RuleFns<$t>>()))); }}; }
+            comp!(i, go);
+        } else if let Some(rest) = item.strip_prefix('p') {
+            let (i, prio) = rest.split_once(':').unwrap();
+            let prio = num(prio) as usize;
+            macro_rules! go { ($t:ty) => {{ app.replicate_with_priority(prio, RuleFns::<$t>::default()); model.push(format!("0:{prio:x}:0:{}", name(std::any::type_name::<RuleFns<$t>>()))); }}; }
+            comp!(i, go);
+        } else if let Some(ij) = item.strip_prefix('b') {
+            match ij {
+                "01" => { app.replicate_bundle::<(CA, CB)>(); model.push(format!("1:0:0:{}", name(std::any::type_name::<(CA, CB)>()))); }
+                "10" => { app.replicate_bundle::<(CB, CA)>(); model.push(format!("1:0:0:{}", name(std::any::type_name::<(CB, CA)>()))); }
+                "12" => { app.replicate_bundle::<(CB, CC)>(); model.push(format!("1:0:0:{}", name(std::any::type_name::<(CB, CC)>()))); }
+                _ => { app.replicate_bundle::<(CA, CB, CC)>(); model.push(format!("1:0:0:{}", name(std::any::type_name::<(CA, CB, CC)>()))); }
+            }
+        }
+    }
+    app.finish();
+    let h = bevy_replicon::shared::protocol::verif::value(app.world().resource::<ProtocolHash>());
+    format!("{h:x} {}", model.join(","))
+}
+
 fn handle(cmd: &str, args: &[&str]) -> String {
     match cmd {
         "ent_dec" => ent_dec(args),
         "ent_enc" => ent_enc(args),
         "tcmp" => tcmp(args),
+        "proto_app" => proto_app(args),
         "scene" => scene_kernel::scene_cmd(args),
         "vis" => vis(args),
         "cond" => cond(args),
